@@ -24,6 +24,9 @@ def dispatch(prop, tier, seed):
     if prop in ('C12', 'C13'):
         from . import daemon_poller
         return getattr(daemon_poller, 'check_' + prop.lower())(tier, seed)
+    if prop == 'C19':
+        from . import drift_cli
+        return drift_cli.run_check(tier, seed)
     raise SystemExit('no check for ' + prop)
 
 
